@@ -111,7 +111,9 @@ func Run(ctx *common.Ctx) {
 		"ratios (small and with numerators beyond 2^64), single and double floats, characters and strings over ASCII plus U+212A/U+017F, symbols in several " +
 		"spellings, proper and dotted lists, vectors, nested to depth 2; the second and third reference are with probability 0.6 a variant of an earlier one " +
 		"(same box, fresh copy, other numeric representation, neighbour value, other case, one element varied, list<->vector); all 9 ordered pairs x 4 predicates " +
-		"and sxhash observed. hash cases: a pool of 3-6 such keys (mostly hashable kinds, variants of each other), a table made with a random :test, a history of " +
+		"and sxhash observed (designed triples include one value as fixnum / bignum / ratio / single / double, k / K / KELVIN SIGN nested in lists and vectors, 2^79 against " +
+		"(2^80+3)/2, a fixnum beyond 2^53 with the floats it converts to). hash cases: a pool of 3-6 such keys (hashable kinds incl. bignums and ratios in separately allocated copies, " +
+		"lists that the table must refuse with a type-error, variants of each other), a table made with a random :test, a history of " +
 		"up to 12 setf-gethash/gethash/remhash/clrhash/hash-table-count/maphash with every result observed. type cases: typep of one object of every kind for every " +
 		"registered class name, every hierarchy symbol and some unknown or upper-case names; subtypep on all ordered pairs of class names (sampled above 4000) plus " +
 		"list designators; coerce of every kind to every coercion target. distinct_nontrivial counts distinct eq cases in which some pair is related by one predicate " +
@@ -126,8 +128,14 @@ func runEq(ctx *common.Ctx, g *gen, n int) {
 	var descs []any
 	seen := map[string]bool{}
 	nontrivial := 0
+	lowWords := g.lowWordTriples()
 	for c := 0; c < n; c++ {
-		refs := g.refTriple()
+		var refs []aref
+		if c < len(lowWords) {
+			refs = lowWords[c] // a fixed block first: must not depend on the luck of the draw
+		} else {
+			refs = g.refTriple()
+		}
 		w := words{}
 		rterms := make([]string, len(refs))
 		shows := make([]string, len(refs))
@@ -222,6 +230,16 @@ func (g *gen) designed() []*node {
 		{nSym("k"), nSym("K"), nSym("\u212a")},
 		{nStr("abc"), nStr("ABC"), nSym("abc")},
 		{nFix(1000000), nF64(1000000), nF32(1000000)},
+		// sxhash across representations (repairs C16-9 / C16-10) and exact bignum / ratio comparison (C16-11)
+		{nRat(big.NewInt(1), big.NewInt(2)), nF64(0.5), nF32(0.5)},
+		{nRat(big.NewInt(5), big.NewInt(4)), nF64(1.25), nBig(big.NewInt(1))},
+		{nFix(123456), nF32(123456), nBig(big.NewInt(123456))},
+		{nFix(16777215), nF32(16777215), nF64(16777215)},
+		{nBig(p79), nRat(add(p80, 3), big.NewInt(2)), nRat(add(p80, 1), big.NewInt(2))},
+		{nBig(add(p64, 1)), nRat(add(new(big.Int).Lsh(p64, 1), 3), big.NewInt(2)), nF64(1.8446744073709552e19)},
+		// a fixnum beyond 2^53 against the single and the double it converts to (known finding)
+		{nFix(1152921573326323713), nF32(1.152921642045800448e18), nF64(1.152921573326323712e18)},
+		{nLst(nStr("kelvin"), nFix(1000000)), nLst(nStr("\u212aELVIN"), nF64(1000000)), nVec(nStr("kelvin"), nFix(1000000))},
 		{nFix(5), nF64(5), nBig(big.NewInt(5))},
 		{nLst(), {k: kNil}, nVec()},
 		{nLst(nFix(1), nTl(nFix(2))), nLst(nFix(1), nFix(2)), nLst(nFix(1), nTl(nF64(2)))},
@@ -240,6 +258,50 @@ func (g *gen) designed() []*node {
 				out[i] = nLst(nSym("w"), t[p])
 			} else {
 				out[i] = nVec(t[p])
+			}
+		}
+	}
+	return out
+}
+
+// lowWordTriples: a bignum beyond int64 against the fixnum that has its low 64 bits (what big.Int.Int64 returns for
+// it: an Equal method that forgets the IsInt64 guard identifies the two, with the bignum as receiver only). Generated
+// on every run for a spread of high words k and low words u, both signs: bare (eql / equal / equalp go through same),
+// as the element of a vector (equal and equalp compare vectors with Vector.Equal, i.e. ObjectEqual on the elements,
+// in both argument orders), and inside a list holding a vector; sxhash of all of them is observed too. Seeded change
+// C05-5 was once caught only when a random triple happened to be wrapped in a vector.
+func (g *gen) lowWordTriples() [][]aref {
+	ks := []*big.Int{big.NewInt(1), big.NewInt(2), big.NewInt(3), big.NewInt(1 << 10), pow2(40), big.NewInt(int64(g.rng.Intn(1<<20)) + 4)}
+	us := []*big.Int{big.NewInt(0), big.NewInt(1), big.NewInt(5), pow2(62), p63, add(p64, -1), add(p63, 1),
+		new(big.Int).SetUint64(uint64(g.rng.Intn(1<<30))<<32 | uint64(g.rng.Intn(1<<30)))}
+	var out [][]aref
+	i := 0
+	for _, k := range ks {
+		for _, u := range us {
+			for _, neg := range []bool{false, true} {
+				if (i+len(out))%3 != 0 && !(k.Cmp(big.NewInt(1)) == 0) { // all of k = 1, a third of the rest
+					i++
+					continue
+				}
+				i++
+				b := new(big.Int).Add(new(big.Int).Mul(p64, k), u)
+				if neg {
+					b.Neg(b)
+				}
+				lo := b.Int64() // the low 64 bits of |b| with b's sign
+				other := nBig(new(big.Int).Add(b, p64))
+				var tr []*node
+				switch len(out) % 4 {
+				case 0:
+					tr = []*node{nVec(nBig(b)), nVec(nFix(lo)), nVec(other)}
+				case 1:
+					tr = []*node{nVec(nFix(lo)), nVec(nBig(b)), nLst(nBig(b))}
+				case 2:
+					tr = []*node{nBig(b), nFix(lo), nVec(nFix(lo), nBig(b))}
+				default:
+					tr = []*node{nLst(nSym("w"), nVec(nBig(b), nFix(lo))), nLst(nSym("w"), nVec(nFix(lo), nFix(lo))), nLst(nSym("w"), nVec(nBig(b), nBig(b)))}
+				}
+				out = append(out, []aref{mkref(tr[0]), mkref(tr[1]), mkref(tr[2])})
 			}
 		}
 	}
@@ -277,15 +339,25 @@ var testCode = map[string]int{"eq": 0, "eql": 1, "equal": 2, "equalp": 3}
 
 func simpleNode(n *node) bool {
 	switch n.k {
-	case kNil, kTru, kFix, kChr, kStr, kSym, kVec:
+	case kNil, kTru, kFix, kChr, kStr, kSym, kVec, kLst:
 		return true
+	case kBig: // as the reader makes it: outside int64
+		return !n.z.IsInt64()
+	case kRat: // numerator below 2^62 (the bound of sym_guard)
+		return new(big.Int).Abs(n.z).Cmp(pow2(62)) < 0
 	}
 	return false
 }
 
 // simpleAtom: a key of the kinds on which the table is expected to be a finite map under eql
 func (g *gen) simpleAtom() *node {
-	switch g.rng.Intn(12) {
+	switch g.rng.Intn(16) {
+	case 13, 14, 15: // bignums and ratios: found by value since repair C16-5 (formerly keyed by pointer)
+		return common.Pick(g.rng, []*node{nBig(e20), nBig(add(e20, 1)), nBig(p63), nBig(p64), nBig(new(big.Int).Neg(e20)), nBig(new(big.Int).Neg(add(p63, 1))),
+			nRat(big.NewInt(1), big.NewInt(2)), nRat(big.NewInt(-1), big.NewInt(2)), nRat(big.NewInt(1), big.NewInt(3)), nRat(big.NewInt(3), big.NewInt(2)),
+			nRat(big.NewInt(2), big.NewInt(4)), nRat(add(pow2(61), 1), big.NewInt(2))})
+	case 12: // a list: the table refuses it with a type-error (formerly a host fault, C16-hash-list-key-faults)
+		return common.Pick(g.rng, []*node{nLst(nFix(1), nFix(2)), nLst(), nLst(nSym("a")), nLst(nFix(1), nTl(nFix(2))), nLst(nStr("k"), nLst(nFix(5)))})
 	case 0:
 		return &node{k: kNil}
 	case 1:
@@ -304,6 +376,20 @@ func (g *gen) simpleAtom() *node {
 }
 
 func (g *gen) keyPool() []aref {
+	if g.rng.Chance(6) {
+		// a bignum beyond int64, the fixnum with its low 64 bits, and copies of both: four simple keys, two classes
+		k := common.Pick(g.rng, []int64{1, 2, 3, 1 << 10})
+		u := common.Pick(g.rng, []*big.Int{big.NewInt(0), big.NewInt(1), big.NewInt(5), pow2(62), p63, add(p64, -1)})
+		b := new(big.Int).Add(new(big.Int).Mul(p64, big.NewInt(k)), u)
+		if g.rng.Bool() {
+			b.Neg(b)
+		}
+		pool := []aref{mkref(nBig(b)), mkref(nFix(b.Int64())), mkref(nFix(b.Int64())), mkref(nBig(b))}
+		if g.rng.Bool() {
+			pool[0], pool[1] = pool[1], pool[0]
+		}
+		return pool
+	}
 	n := 3 + g.rng.Intn(4)
 	simple := g.rng.Chance(60)
 	pool := make([]aref, 0, n)
@@ -495,6 +581,9 @@ func errObs(o common.Outcome) string {
 	if o.Err == "go-panic" || common.Fault(o.Msg) {
 		return "OFault"
 	}
+	if o.Err == "type-error" {
+		return "OTypeErr" // HashTable.Key refuses a key Go cannot hash (repair C16-4)
+	}
 	return "OBadKey" // any other failure: never what the model says
 }
 
@@ -555,12 +644,26 @@ func mapObs(s *slip.Scope, ht slip.Object, pool []aref) string {
 	return "OEntries [" + strings.Join(items, "; ") + "]"
 }
 
+// sameGoKey: is b the key a table reaches with a?  Go's == on the interface values, except that HashTable.Key
+// resolves a bignum or ratio to the stored key of the same type and value (repair C16-5).
 func sameGoKey(a, b slip.Object) (eq bool) {
 	defer func() {
 		if recover() != nil {
 			eq = false
 		}
 	}()
+	switch ta := a.(type) {
+	case *slip.Bignum:
+		if tb, ok := b.(*slip.Bignum); ok {
+			return (*big.Int)(ta).Cmp((*big.Int)(tb)) == 0
+		}
+		return false
+	case *slip.Ratio:
+		if tb, ok := b.(*slip.Ratio); ok {
+			return (*big.Rat)(ta).Cmp((*big.Rat)(tb)) == 0
+		}
+		return false
+	}
 	return a == b
 }
 
